@@ -211,7 +211,7 @@ AsValue(found, names) ==
 \* was used, negative results included) initially contains the buffer under its dotted name;
 \* it is consulted in Importer.follow and before every step of the walk.
 NoCache == [x \in {} |-> NoV]
-Cache0(f, sw) == IF sw.selfcache THEN (Buf(f, sw).names :> Buf(f, sw)) ELSE NoCache
+Cache0(buf, sw) == IF sw.selfcache THEN (buf.names :> buf) ELSE NoCache
 RC(v, c) == [v |-> v, c |-> c]
 
 \* imports.import_module behind typeshed.import_module_decorator
@@ -232,9 +232,9 @@ DWalkFrom(names, i, parent, path, c) ==
 \* Importer.__init__: [ip = rewritten import path, fixed = <<dir>> or <<>>]
 UpDir(dir, k) == IF dir = <<"^">> \/ Len(dir) < k THEN <<"^">> ELSE SubSeq(dir, 1, Len(dir) - k)
 DirOf(f)      == IF f.init THEN FP(f) ELSE f.d                 \* os.path.dirname(py__file__)
-DRewrite(lvl, path, f, sw) ==
-  LET base == DPackage(Buf(f, sw))
-      b    == IF Buf(f, sw).names = <<"__main__">> THEN <<>> ELSE base
+DRewrite(lvl, path, f, buf) ==
+  LET base == DPackage(buf)
+      b    == IF buf.names = <<"__main__">> THEN <<>> ELSE base
   IN IF lvl = 0 THEN [ip |-> path, fixed |-> <<>>]
      ELSE IF lvl <= Len(b) THEN [ip |-> SubSeq(b, 1, Len(b) - lvl + 1) \o path, fixed |-> <<>>]
      ELSE \* DEVIATION StrVsPath: _level_to_base_import_path compares a str with project.path
@@ -261,8 +261,8 @@ Listed(dirs, x) == \E i \in 1..Len(dirs) : KindAt(dirs[i] \o <<x>>) # "abs"   \*
 \*   attribute of the module (tree names, then sub_modules_dict -> SubModuleName.infer() =
 \*   Importer([x], context of v, level=1).follow() with the normal sys.path), and when that
 \*   gives nothing Importer(import_path + (x,), module_context, level).follow()
-DFrom(rw, x, f, sw, goto) ==
-  LET s1 == DFollow(rw, Cache0(f, sw))
+DFrom(rw, x, f, buf, sw, goto) ==
+  LET s1 == DFollow(rw, Cache0(buf, sw))
       v  == s1.v
       fb(c) == DFollow([ip |-> rw.ip \o <<x>>, fixed |-> rw.fixed], c).v
   IN IF v.t = "none" THEN Nothing
@@ -276,12 +276,14 @@ DFrom(rw, x, f, sw, goto) ==
                   ELSE Proj(fb(s2.c))
      ELSE Proj(fb(s1.c))
 
-DResolve(form, f, sw, goto) ==
-  LET rw == DRewrite(form.lvl, form.path, f, sw)
-  IN IF form.k \in {"imp", "impas"} THEN Proj(DFollow(rw, Cache0(f, sw)).v)
-     ELSE IF form.k = "from" THEN DFrom(rw, form.name, f, sw, goto)
-     ELSE LET v == DFollow(rw, Cache0(f, sw)).v   \* ModuleMixin.star_imports + first filter
+\* buf = Buf(f, sw), passed in so that TLC computes it once per state
+DResolveB(form, f, buf, sw, goto) ==
+  LET rw == DRewrite(form.lvl, form.path, f, buf)
+  IN IF form.k \in {"imp", "impas"} THEN Proj(DFollow(rw, Cache0(buf, sw)).v)
+     ELSE IF form.k = "from" THEN DFrom(rw, form.name, f, buf, sw, goto)
+     ELSE LET v == DFollow(rw, Cache0(buf, sw)).v   \* ModuleMixin.star_imports + first filter
           IN IF v.t = "file" /\ ~IsBuf(v, f) THEN AttrR(File(v.d, v.n, v.init)) ELSE Nothing
+DResolve(form, f, sw, goto) == DResolveB(form, f, Buf(f, sw), sw, goto)
 
 ---------------------------------------------------------------------------
 (* Queries *)
@@ -298,15 +300,27 @@ SwitchSets == {[selfcache |-> FALSE, shortest |-> TRUE], [selfcache |-> TRUE, sh
                [selfcache |-> FALSE, shortest |-> FALSE]}
 SwName(sw) == IF ~sw.selfcache /\ ~sw.shortest THEN "SelfCache+ShortestDotted"
               ELSE IF ~sw.selfcache THEN "SelfCache" ELSE "ShortestDotted"
-OKq(form, f, sw) == Holds(DResolve(form, f, sw, FALSE), form, f) /\ Holds(DResolve(form, f, sw, TRUE), form, f)
-Explains(form, f) == {SwName(sw) : sw \in {s \in SwitchSets : OKq(form, f, s)}}
+\* ids = Identities(f), buf = Buf(f, sw)
+OKqB(form, f, buf, sw, ids) ==
+  LET ans == {PyResolve(id, form, f) : id \in ids}
+      ji  == DResolveB(form, f, buf, sw, FALSE)
+      jg  == DResolveB(form, f, buf, sw, TRUE)
+  IN (\E a \in ans : Holds1(ji, a)) /\ (\E a \in ans : Holds1(jg, a))
+OKq(form, f, sw) == OKqB(form, f, Buf(f, sw), sw, Identities(f))
+ExplainsB(form, f, ids) == {SwName(sw) : sw \in {s \in SwitchSets : OKqB(form, f, Buf(f, s), s, ids)}}
+Explains(form, f) == ExplainsB(form, f, Identities(f))
+ValidForms == {x \in Forms : ValidForm(x)}
 
 \* the invariants
 SameTargetStrict == phase = "query" =>
-  \A form \in {x \in Forms : ValidForm(x)} : OKq(form, imp, AsIs)
+  LET buf == Buf(imp, AsIs)
+      ids == Identities(imp)
+  IN \A form \in ValidForms : OKqB(form, imp, buf, AsIs, ids)
 \* ... modulo the named deviations that are recorded as known findings
 SameTarget == phase = "query" =>
-  \A form \in {x \in Forms : ValidForm(x)} : OKq(form, imp, AsIs) \/ Explains(form, imp) # {}
+  LET buf == Buf(imp, AsIs)
+      ids == Identities(imp)
+  IN \A form \in ValidForms : OKqB(form, imp, buf, AsIs, ids) \/ ExplainsB(form, imp, ids) # {}
 
 OnPath(f) == DCands(sp, FP(f)) # <<>> /\ PyCands(f) # {}
 RoundTripOK(f, sw) == (OnPath(f) /\ RunNames(f) # {}) => DDotted(f, sw) \in RunNames(f)
@@ -380,7 +394,7 @@ CaseRec ==
    run    |-> Listify(RunNames(imp)),
    onpath |-> OnPath(imp),
    rtok   |-> RoundTripOK(imp, AsIs),
-   qs     |-> Listify({QueryRec(form) : form \in {x \in Forms : ValidForm(x)}})]
+   qs     |-> Listify({QueryRec(form) : form \in ValidForms})]
 
 \* witnesses of the named deviations: the strict invariants, printing the case they fail on
 SameTargetWitness == SameTargetStrict \/ (PrintT(<<"CASE", ToJson(CaseRec)>>) /\ FALSE)
